@@ -26,7 +26,7 @@ def attach_post(owner, name: str, cond, R=None, snapshots: dict | None = None):
     """icontract.ensure(cond) on ``owner.name``; optional icontract.snapshot captures.
 
     ``cond`` must use the wrapped function's own parameter names (+ ``result``, ``OLD``).
-    A condition that raises is itself a monitor bug -> recorded as 'monitor_error'.
+    A condition that raises is itself a monitor bug -> counted as 'monitor_error', which makes the run INCONCLUSIVE (vf.core).
     """
     if not enabled():
         return None
@@ -37,10 +37,10 @@ def attach_post(owner, name: str, cond, R=None, snapshots: dict | None = None):
     def safe_cond(*a, **k):
         try:
             r = cond(*a, **k)
-        except Exception as e:  # monitor bug, not a library bug: make it loud
+        except Exception as e:  # monitor bug, not a library bug: the run is inconclusive, never a violation
             if R is not None:
                 R.count("monitor_error")
-                R.violation("monitor_error", {"monitor": f"{name}", "exception": f"{type(e).__name__}: {e}"[:300]})
+                R.skip(f"monitor_error:{name}:{type(e).__name__}: {e}"[:160])
             return True
         return True if r is None else r
 
